@@ -1,6 +1,7 @@
 package main
 
 import (
+	"encoding/base64"
 	"math/rand"
 	"sort"
 	"strings"
@@ -104,6 +105,7 @@ func init() {
 		type op struct {
 			b    string
 			data map[string]string
+			bin  map[string]string // key -> raw bytes that are not valid UTF-8 (they end up in binaryData)
 			nh   bool
 		}
 		var ops []op
@@ -117,16 +119,30 @@ func init() {
 			for j := 0; j < 1+r.Intn(3); j++ {
 				d[pick(r, []string{"a", "b", "c"})] = pick(r, []string{"1", "2", "x", ""})
 			}
+			bin := map[string]string{}
+			if r.Intn(3) == 0 {
+				for j := 0; j < 1+r.Intn(2); j++ {
+					k := pick(r, []string{"p", "q", "a"})
+					if _, clash := d[k]; !clash {
+						bin[k] = pick(r, []string{"\xff\xfe\x01", "\x80abc", "\xc3\x28"})
+					}
+				}
+			}
+			binW := map[string]string{}
+			for k, v := range bin {
+				binW[k] = base64.StdEncoding.EncodeToString([]byte(v))
+			}
 			nh := r.Intn(4) != 0
-			ops = append(ops, op{b, d, nh})
-			wops = append(wops, map[string]interface{}{"behavior": b, "data": dictWire(d), "needsHash": nh})
+			ops = append(ops, op{b, d, bin, nh})
+			wops = append(wops, map[string]interface{}{"behavior": b, "data": dictWire(d), "bin": dictWire(binW), "needsHash": nh})
 		}
 		args := map[string]interface{}{"ops": wops}
 		return args, func() (interface{}, string) {
 			rmf := resmap.NewFactory(rf())
 			acc := resmap.New()
+			anyBin := false
 			for _, o := range ops {
-				var lits []string
+				var lits, files []string
 				keys := make([]string, 0)
 				for k := range o.data {
 					keys = append(keys, k)
@@ -135,10 +151,22 @@ func init() {
 				for _, k := range keys {
 					lits = append(lits, k+"="+o.data[k])
 				}
+				fs := filesys.MakeFsInMemory()
+				bkeys := make([]string, 0)
+				for k := range o.bin {
+					bkeys = append(bkeys, k)
+				}
+				sort.Strings(bkeys)
+				for _, k := range bkeys {
+					fs.WriteFile("/"+k+".bin", []byte(o.bin[k]))
+					files = append(files, k+"="+k+".bin")
+					anyBin = true
+				}
 				a := types.ConfigMapArgs{GeneratorArgs: types.GeneratorArgs{Name: "cm", Behavior: o.b,
-					KvPairSources: types.KvPairSources{LiteralSources: lits},
+					KvPairSources: types.KvPairSources{LiteralSources: lits, FileSources: files},
 					Options:       &types.GeneratorOptions{DisableNameSuffixHash: !o.nh}}}
-				m, err := rmf.FromConfigMapArgs(kvLoader(), a)
+				ldr := kv.NewLoader(pkgloader.NewFileLoaderAtRoot(fs), depProvider.GetFieldValidator())
+				m, err := rmf.FromConfigMapArgs(ldr, a)
 				if err != nil {
 					return map[string]interface{}{"err": "gen"}, "err-gen"
 				}
@@ -151,7 +179,11 @@ func init() {
 				}
 			}
 			res := acc.Resources()[0]
-			return map[string]interface{}{"ok": map[string]interface{}{"data": dictWire(res.GetDataMap()), "needsHash": res.NeedHashSuffix()}}, "ok"
+			cl := "ok"
+			if anyBin {
+				cl = "ok-binary"
+			}
+			return map[string]interface{}{"ok": map[string]interface{}{"data": dictWire(res.GetDataMap()), "needsHash": res.NeedHashSuffix(), "bin": dictWire(res.GetBinaryDataMap())}}, cl
 		}
 	}
 }
